@@ -63,6 +63,8 @@ def setup_env():
     package: unchanged tree -> compiled code shared between checks, any edit ->
     full recompile.
     """
+    if REPO not in sys.path:
+        sys.path.insert(0, REPO)  # the tree under test wins over the editable install
     if os.environ.get("VF_ENV_READY") == "1" and os.environ.get("NUMBA_CACHE_DIR"):
         return os.environ["NUMBA_CACHE_DIR"]
     th = tree_hash()
